@@ -140,6 +140,13 @@ SIMPLE = [
     S("multiline-str", ['{n1} = E({e1}, """first', '            second""")'], cur=None, flags=["closure"], special=True),
     # Python never evaluates the annotation of a local variable (e.g. a name imported under TYPE_CHECKING only)
     S("ann-undefined", "{n1}: OnlyForTypeCheckers = E({e1}, {p})", cur="n1", special=True),
+    # assignment expressions evaluated by f in places that are easy to overlook
+    S("sub-index-walrus", "d[({n1} := E({e1}, 'k'))] = E({e2}, {p})", flags=["d"], special=True),
+    S("default-walrus", ["def {n1}(u=({n2} := E({e1}, {p}))):", "    return u", "{n3} = {n1}()"], cur="n3", special=True),
+    S("class-base-walrus", ["class {N1}(({n1} := E({e1}, object))):", "    pass", "{n2} = E({e2}, {n1} is object)"], cur=None, special=True),
+    # a lambda is a scope of its own: its walrus binds the lambda's variable, its yield makes the lambda a generator
+    S("lambda-walrus", "{n1} = (lambda: ({p} := E({e1}, 5)))()", cur="n1", special=True),
+    S("lambda-yield", "{n1} = list((lambda: (yield E({e1}, {p})))())", cur=None, special=True),
     S("mangled-read", "{n1} = E({e1}, K.__hid + {p})", cur="n1", flags=["inclass"], special=True),
     S("weird-eq", "{n1} = NOEQ(E({e1}, {p}))", special=True),
     S("return-yield", "return (yield E({e1}, {p}))", gen=True, special=True),
@@ -171,7 +178,7 @@ COMPOUND = [
     S("try-except-else", "try:", bodies=3, body_heads=["except ERR as {n1}:", "else:"], tier="thorough"),
     S("with", "with CM(E({e1}, {p})) as {n1}:", bodies=1),
     S("with-tuple", "with CM2(E({e1}, {p})) as ({n1}, {n2}):", bodies=1),
-    S("with-noas", "with CM(E({e1}, {p})):", bodies=1, tier="thorough"),
+    S("with-noas", "with CM(E({e1}, {p})):", bodies=1),
     S("with-two", "with CM(E({e1}, {p})) as {n1}, CM(E({e2}, {p})) as {n2}:", bodies=1, cur="n2"),
     S("while-else", "while T({e1}, {p}):", bodies=2, loop=True, body_heads=["else:"]),
     S("try-except-finally", "try:", bodies=3, body_heads=["except ERR as {n1}:", "finally:"], tier="thorough"),
@@ -182,6 +189,7 @@ COMPOUND = [
     S("for-yield-iter", "for {n1} in (yield E({e1}, {p})) or R(1):", bodies=1, loop=True, gen=True, special=True),
     S("while-yield-test", "while (yield E({e1}, {p})):", bodies=1, loop=True, gen=True, special=True),
     S("if-yield-test", "if (yield E({e1}, {p})):", bodies=1, gen=True, special=True),
+    S("with-two-dep", "with CM(E({e1}, {p})) as {n1}, CM(E({e2}, {n1})) as {n2}:", bodies=1, cur="n2", special=True),
     S("with-yield-item", "with CM((yield E({e1}, {p}))) as {n1}:", bodies=1, gen=True, special=True),
 ]
 # thorough tier: programs of three nodes are enumerated over this core menu (the full menu at three nodes
@@ -191,7 +199,8 @@ CORE3 = frozenset({"assign", "chain", "aug", "unpack-tuple", "unpack-star", "att
                    "yield-recv", "if", "if-else", "for", "for-else", "while", "try-except", "try-finally", "with",
                    "break", "continue", "del"})
 # the `odd` program set: every program contains at least one of ODD, the rest comes from ODD_BASE
-ODD = frozenset({"none-global-read", "weird-eq", "multiline-str", "mangled-read", "return-yield", "arg-yield", "assert-yield", "sub-index-yield",
+ODD = frozenset({"none-global-read", "weird-eq", "multiline-str", "mangled-read", "sub-index-walrus", "default-walrus",
+                 "class-base-walrus", "lambda-walrus", "lambda-yield", "with-two-dep", "return-yield", "arg-yield", "assert-yield", "sub-index-yield",
                  "default-yield", "ann-yield", "attr-yield", "for-list-target", "with-list-target", "for-yield-iter",
                  "while-yield-test", "if-yield-test", "with-yield-item"})
 ODD_BASE = ODD | frozenset({"assign", "aug", "for", "if", "try-finally", "try-except", "yield-recv", "return", "raise", "break"})
@@ -234,7 +243,7 @@ def statements(ctx, budget, tier, only, depth, maxdepth):
             continue
         head, heads, c2, cur_after = form.instantiate(ctx)
         # body 1 sees names bound by the head (loop target, walrus); later bodies see the except name
-        inner0 = c2._replace(cur=cur_after if form.name in ("for", "for-else", "if-walrus", "while-walrus", "with", "with-swallow", "with-two", "for-yield-iter", "with-yield-item") else c2.cur,
+        inner0 = c2._replace(cur=cur_after if form.name in ("for", "for-else", "if-walrus", "while-walrus", "with", "with-swallow", "with-two", "for-yield-iter", "with-yield-item", "with-two-dep") else c2.cur,
                              loop=ctx.loop or form.loop)
 
         def fill(k, cstart, left):
